@@ -241,7 +241,20 @@ pub fn record(seed: u64, n: usize, bin: &str, scratch: &str, out: &str, rep: &mu
             let mut g = crate::progs::Gen::new(&mut rng);
             g.with_input = true;
             g.fail_rate = 0.03;
-            g.program()
+            let mut ls = g.program();
+            // text that runs to the physical end of a line must survive loading: trailing blanks,
+            // a REM, a DATA item whose quote is never closed (read and printed by the last line)
+            for l in ls.iter_mut() {
+                if rng.gen_bool(0.15) {
+                    l.push_str(["  ", " ", "\t", "   "][rng.gen_range(0..4)]);
+                }
+            }
+            if rng.gen_bool(0.3) {
+                ls.insert(0, "1 DATA \"Q   ".to_string());
+                ls.insert(1, "2 READ Z9$:PRINT Z9$;\"|\"".to_string());
+                ls.insert(2, "3 REM [   ".to_string());
+            }
+            ls
         };
         let (w, t, s) = (rng.gen_bool(0.5), rng.gen_bool(0.5), rng.gen_bool(0.5));
         let replies: Vec<String> = (0..30).map(|_| ["5", "0", "7", "12", "3"][rng.gen_range(0..5)].to_string()).collect();
